@@ -140,6 +140,31 @@ func TestC18(t *testing.T) {
 			return okOrErr(err, b01(c))
 		}))
 	}
+	// bit indices of 2^32 and more (a bitfield of more than 512 MiB; only the pages that are
+	// touched exist).  The model's lists cannot hold it: the driver answers from the sparse
+	// description with the definition the theorems state (bit i lives in byte i/8, position i%8).
+	{
+		const total = 1<<29 + 2
+		big := make([]byte, total)
+		sparse := map[uint64]byte{0: 0x5a, 1: 0xc3, 1 << 28: 0x0f, 1<<29 - 1: 0x81, 1 << 29: 0xa6, 1<<29 + 1: 0x3c}
+		desc := ""
+		for _, p := range []uint64{0, 1, 1 << 28, 1<<29 - 1, 1 << 29, 1<<29 + 1} {
+			big[p] = sparse[p]
+			desc += hx(p) + ":" + hx(uint64(sparse[p])) + ","
+		}
+		for _, i := range []uint64{0, 3, 9, 1<<31 + 2, 1<<32 - 1, 1 << 32, 1<<32 + 1, 1<<32 + 2, 1<<32 + 7, 1<<32 + 8, 1<<32 + 13} {
+			ii := i
+			out.emit("bigindex", "bitbig", []string{hx(total), desc, hx(ii)}, guard(func() string {
+				g := bitfields.GetBit(big, ii)
+				pos, lo := ii>>3, uint64(uint32(ii))>>3
+				saved, savedLo := big[pos], big[lo]
+				bitfields.SetBit(big, ii, !g)
+				after, afterLo := big[pos], big[lo]
+				big[pos], big[lo] = saved, savedLo
+				return joinKV("get="+b01(g), "byte="+hx(uint64(after)), "low="+hx(uint64(afterLo)))
+			}))
+		}
+	}
 	// covers on arguments that share memory: two windows of one buffer (same start with
 	// different lengths, overlapping, adjacent), and one slice passed twice.  The answer is a
 	// function of the two bit sequences only.
